@@ -5,7 +5,7 @@ From V.c13 Require Import C13Spec C13Model.
 From V.c17 Require Import C17Spec C17Model C17RbspProofs C17WriterProofs C17EbspProofs.
 From V.c17 Require Import C17TypedModel C17BitProofs C17TypedProofs C17FswProofs C17ComposeProofs.
 From V.c17 Require Import C17HistModel C17HistProofs C17CanonProofs C17TieModel C17TieProofs.
-From V.c17 Require Import C17NaluModel C17NaluProofs.
+From V.c17 Require Import C17NaluModel C17NaluProofs C17SizeModel C17SizeProofs.
 
 (* the 0xFF-run code of payload type (Go uint accumulator) and payload size (uint32
    accumulator) decodes to the value and leaves the rest of the input untouched: every value
@@ -373,3 +373,28 @@ Example C17_nalu_written_hyp :
   let cs := [mkClock true false 0 false false false 0 false 0 false 0 false 0 5 1] in
   parse_sei_nalu_avc APNone (6 :: write_sei_messages [mkMsg 136 (tc_size cs) (tc_payload cs)]) = POk [MRaw 136 [96; 0; 0; 161]].
 Proof. vm_compute. reflexivity. Qed.
+
+(* ---------------------------------------------------------------- Size() = len(Payload()) for EVERY value *)
+(* "Size() equals the serialised length" without the canonical hypothesis: ANY time code value (any
+   number of clocks, any field values incl. ones wider than their code, junk in fields the flags make
+   absent), ANY AVC picture timing value (any pict_struct, any clock count, per-clock time-offset
+   lengths differing from the message's, delays wider than their lengths), every mdcv / cll value.
+   The only hypothesis bounds the WIDTHS handed to FixedSliceWriter.Write by 56 (time-offset lengths,
+   HRD lengths; the Go fields are bytes, the coded ones 5 bits): the domain of the C13 writer lemma. *)
+Theorem C17_size_any_value :
+  (forall cs, tc_widths_ok cs = true -> tc_payload cs = tc_payload_spec cs /\ lenN (tc_payload cs) = tc_size cs) /\
+  (forall m, pt_widths_ok m = true -> pt_payload m = pt_payload_spec m /\ lenN (pt_payload m) = pt_size m) /\
+  (forall m, lenN (mdcv_payload m) = mdcv_size) /\
+  (forall m, lenN (cll_payload m) = cll_size).
+Proof. exact size_any_value. Qed.
+Print Assumptions C17_size_any_value.
+
+(* non-canonical values inside the hypotheses: five clocks, NFrames 70000, seconds without their flag,
+   a 40-bit time offset; a picture timing with pict_struct 13, no clocks and a delay wider than its length *)
+Example C17_size_any_value_hyp :
+  let cs := [mkClock true true 77 false true false 70000 false 200 true 3 false 9 40 (2 ^ 45);
+             clock_zero; clock_zero; mkClock false true 1 true true true 1 true 1 true 1 true 1 1 1; clock_zero] in
+  let m := mkPT (Some (mkHrd (2 ^ 60) 5 0 55 0)) 3 13 [] in
+  tc_widths_ok cs = true /\ tc_canonical cs = false /\ lenN (tc_payload cs) = tc_size cs /\
+  pt_widths_ok m = true /\ pt_canonical m = false /\ lenN (pt_payload m) = pt_size m.
+Proof. repeat split; vm_compute; reflexivity. Qed.
